@@ -463,23 +463,18 @@ Proof.
 Qed.
 
 (* ---- directive level: logParse ---------------------------------------------------------------- *)
-Fixpoint mk_entries (ds : list directive) (i : nat) (acc : list bytes) : list entry :=
-  match ds with
-  | [] => []
-  | d :: r => let exc := acc ++ d_except d in {| n_id := i; n_except := exc |} :: mk_entries r (S i) exc
-  end.
 Fixpoint own_entries (ds : list directive) (i : nat) : list entry :=
   match ds with
   | [] => []
   | d :: r => {| n_id := i; n_except := d_except d |} :: own_entries r (S i)
   end.
 
-Lemma parse_logs_uniform sc : forall ds i acc es,
+Lemma parse_logs_uniform sc : forall ds i es,
   uniform_scope sc ds ->
-  parse_logs ds i acc [{| ru_scope := sc; ru_entries := es |}] =
-  [{| ru_scope := sc; ru_entries := es ++ mk_entries ds i acc |}].
+  parse_logs ds i [{| ru_scope := sc; ru_entries := es |}] =
+  [{| ru_scope := sc; ru_entries := es ++ own_entries ds i |}].
 Proof.
-  induction ds as [|d ds IH]; intros i acc es Hu.
+  induction ds as [|d ds IH]; intros i es Hu.
   - simpl. rewrite app_nil_r. reflexivity.
   - simpl. rewrite (Hu d (or_introl eq_refl)). rewrite beq_refl.
     rewrite IH; [|intros d' Hd'; apply Hu; now right].
@@ -488,18 +483,10 @@ Qed.
 
 Lemma parse_logs_uniform0 sc d ds :
   uniform_scope sc (d :: ds) ->
-  parse_logs (d :: ds) 0 [] [] = [{| ru_scope := sc; ru_entries := mk_entries (d :: ds) 0 [] |}].
+  parse_logs (d :: ds) 0 [] = [{| ru_scope := sc; ru_entries := own_entries (d :: ds) 0 |}].
 Proof.
   intro Hu. simpl. rewrite (Hu d (or_introl eq_refl)).
   rewrite parse_logs_uniform; [reflexivity|intros d' Hd'; apply Hu; now right].
-Qed.
-
-Lemma mk_entries_own : forall ds i, exc_only_last ds -> mk_entries ds i [] = own_entries ds i.
-Proof.
-  induction ds as [|d ds IH]; intros i H; [reflexivity|].
-  simpl. destruct ds as [|d2 ds'].
-  - reflexivity.
-  - destruct H as [He Hr]. rewrite He. simpl. f_equal. apply IH. exact Hr.
 Qed.
 
 Definition own_lines cs path (st : Z) (sz : N) ds i : list line :=
@@ -565,12 +552,12 @@ Proof.
 Qed.
 
 Lemma one_line_per_log_partial c cs tbl ek sc ds path ops ret u :
-  uniform_scope sc ds -> exc_only_last ds -> no_panic ops = true ->
-  counts_ok cs ds 0 path (snd (log_serve c cs tbl ek (parse_logs ds 0 [] []) path ops ret u)) = true.
+  uniform_scope sc ds -> no_panic ops = true ->
+  counts_ok cs ds 0 path (snd (log_serve c cs tbl ek (parse_logs ds 0 []) path ops ret u)) = true.
 Proof.
-  intros Hu He Hn. destruct ds as [|d ds].
+  intros Hu Hn. destruct ds as [|d ds].
   - reflexivity.
-  - rewrite (parse_logs_uniform0 sc d ds Hu). rewrite (mk_entries_own (d :: ds) 0 He).
+  - rewrite (parse_logs_uniform0 sc d ds Hu).
     destruct (path_matches cs path sc) eqn:Hm.
     + rewrite (log_serve_found c cs tbl ek _ path ops ret u
                  {| ru_scope := sc; ru_entries := own_entries (d :: ds) 0 |}); [|simpl; rewrite Hm; reflexivity|exact Hn].
@@ -609,14 +596,14 @@ Proof.
   intros Hh. cbv zeta. unfold site_serve.
   destruct (inner_flat tbl haserr hdrw ops ret) as [ops1 ret1]. cbn [fst snd].
   intros Hn Hw.
-  pose proof (logged_exact c cs tbl 1 (parse_logs ds 0 [] []) path ops1 ret1 Hh Hn Hw) as H.
-  destruct (find (fun r => path_matches cs path (ru_scope r)) (parse_logs ds 0 [] [])) as [r|] eqn:Hf.
+  pose proof (logged_exact c cs tbl 1 (parse_logs ds 0 []) path ops1 ret1 Hh Hn Hw) as H.
+  destruct (find (fun r => path_matches cs path (ru_scope r)) (parse_logs ds 0 [])) as [r|] eqn:Hf.
   - rewrite (log_serve_found c cs tbl 1 _ path ops1 ret1 uw0 r Hf Hn) in *.
     assert (Hr : (400 <=? (if (400 <=? ret1)%Z then 0%Z else ret1))%Z = false).
     { destruct (400 <=? ret1)%Z eqn:E; [reflexivity|exact E]. }
     rewrite Hr. exact H.
   - pose proof (log_serve_not_found c cs tbl 1 _ path ops1 ret1 uw0 Hf) as Hl.
-    destruct (log_serve c cs tbl 1 (parse_logs ds 0 [] []) path ops1 ret1 uw0) as [[[u' r'] p] lines].
+    destruct (log_serve c cs tbl 1 (parse_logs ds 0 []) path ops1 ret1 uw0) as [[[u' r'] p] lines].
     simpl in Hl. subst lines.
     destruct p; [|destruct (400 <=? r')%Z]; intros l [].
 Qed.
@@ -624,19 +611,19 @@ Qed.
 Lemma site_lines c cs tbl (haserr hdrw : bool) ds path ops ret :
   let flat := inner_flat tbl haserr hdrw ops ret in
   snd (site_serve c cs tbl haserr hdrw ds path ops ret) =
-  snd (log_serve c cs tbl 1 (parse_logs ds 0 [] []) path (fst flat) (snd flat) uw0).
+  snd (log_serve c cs tbl 1 (parse_logs ds 0 []) path (fst flat) (snd flat) uw0).
 Proof.
   cbv zeta. unfold site_serve.
   destruct (inner_flat tbl haserr hdrw ops ret) as [ops1 ret1]. cbn [fst snd].
-  destruct (log_serve c cs tbl 1 (parse_logs ds 0 [] []) path ops1 ret1 uw0) as [[[u r] p] lines].
+  destruct (log_serve c cs tbl 1 (parse_logs ds 0 []) path ops1 ret1 uw0) as [[[u r] p] lines].
   reflexivity.
 Qed.
 
 Lemma site_one_line_per_log_partial c cs tbl (haserr hdrw : bool) sc ds path ops ret :
-  uniform_scope sc ds -> exc_only_last ds -> (haserr = true \/ no_panic ops = true) ->
+  uniform_scope sc ds -> (haserr = true \/ no_panic ops = true) ->
   counts_ok cs ds 0 path (snd (site_serve c cs tbl haserr hdrw ds path ops ret)) = true.
 Proof.
-  intros Hu He Hp. rewrite site_lines. cbv zeta.
+  intros Hu Hp. rewrite site_lines. cbv zeta.
   apply one_line_per_log_partial with (sc := sc); auto.
   apply inner_flat_no_panic. exact Hp.
 Qed.
